@@ -634,6 +634,10 @@ def pseudo_filter(ctx, rule):
     arg = ("param", fn.args.args[1].arg) if len(fn.args.args) > 1 else None
     KP = ("meth", ("global", "Species"), "known_pseudoelements", (), ())
     rets = [p_ for f in cfl.facts if f.kind == "return" for p_ in _return_paths(simp(f.value) if f.value else ("const", None), f.guards)]
+    # (membership in set(L) / frozenset(L) / list(L) / tuple(L) of the known list is membership in the list)
+    from ..valueflow import subst as _subst
+    views = {("call", ("global", f_), (KP,), ()): KP for f_ in ("set", "frozenset", "list", "tuple")}
+    rets = [(v, tuple((simp(_subst(simp(c), views)), p_) for c, p_ in g)) for v, g in rets]
     makes = [(v, g) for v, g in rets if v[0] == "call" and v[1] == ("global", "Species")]
     key = "Component._create_species:pseudo-filter"
     if not makes:
@@ -1159,5 +1163,6 @@ BENIGN = [
         {"file": T, "old": 'rhs[n_spec] += f" + {hrate_sym}[{hidx}] * {rsym_mul}"', "new": 'rhsparts[n_spec].append(f" + {hrate_sym}[{hidx}] * {rsym_mul}")'},
         {"file": T, "old": 'rhs[n_spec] += f" - {crate_sym}[{cidx}] * {rsym_mul}"', "new": 'rhsparts[n_spec].append(f" - {crate_sym}[{cidx}] * {rsym_mul}")'},
         {"file": T, "old": '        lhs = [f"ydot[IDX_{x.alias}]" for x in species]\n', "new": '        rhs = ["".join(parts) for parts in rhsparts]\n        lhs = [f"ydot[IDX_{x.alias}]" for x in species]\n'}]},
+    {"name": "create-species-guard-clauses-set-lookup", "file": "naunet/component.py", "old": "        if species_name and species_name not in Species.known_pseudoelements():\n            return Species(species_name, **kwargs)\n\n        return None\n", "new": "        if not species_name:\n            return None\n        pseudo = frozenset(Species.known_pseudoelements())\n        if species_name in pseudo:\n            return None\n        return Species(species_name, **kwargs)\n"},
     {"name": "template-reindent", "file": TEMPLATES["cvode"], "old": "    {% for eq in ode.fex -%}\n        {{ eq | stmwrap(80, 8) }}", "new": "    {% for eq in ode.fex -%}\n      {{ eq|stmwrap(80, 6) }}"},
 ]
